@@ -380,6 +380,9 @@ def hopClauses (x : Hop) : List (Bool × String) :=
   if x.authFail then
     -- unauthenticated: the protocol's client-error status, never reaches the consumer, not retried
     [ (x.calls != 0, "C15/" ++ t ++ "/unauthenticated-reached-consumer"),
+      -- the two ways this goes badly wrong get their own signatures (both are also instances of the clauses below)
+      (x.verdict == .success, "C15/" ++ t ++ "/unauthenticated-acknowledged-as-success"),
+      (x.verdict.isRetry, "C15/" ++ t ++ "/unauthenticated-looks-retryable-to-the-sender"),
       ((match x.transport with
         | .grpc => x.wireCode != 16
         | .http => decide (x.httpStatus < 400) || decide (499 < x.httpStatus)), "C15/" ++ t ++ "/unauthenticated-not-client-error"),
